@@ -18,7 +18,7 @@ def main():
     reg = SourceRegistry()
     lib = Lib()
     contracts = {c.target: c for c in REGISTRY.values() if c.name == c.target}
-    for name, C in REGISTRY.items():
+    for name, C in list(REGISTRY.items()):
         if filt not in name or C.assumed:
             continue
         from .worker import make_lib
